@@ -398,7 +398,9 @@ func renderScript(sc *Script, lay *Layout) []string {
 			}
 		}
 		for _, n := range f {
-			p.b.WriteString("title: " + n.Title + "\n")
+			if n.Title != "" { // (a node without a title header can only be the start node)
+				p.b.WriteString("title: " + n.Title + "\n")
+			}
 			if n.Tracking != "" {
 				p.b.WriteString("tracking: " + n.Tracking + "\n")
 			}
